@@ -56,6 +56,7 @@ func (i simFileInfo) Sys() any           { return nil }
 
 type simFS struct {
 	r     *Run
+	slowP float64 // probability that one read/close call takes simulated time
 	mu    sync.Mutex
 	files map[string]*simFile
 	opens map[string]int
@@ -75,11 +76,12 @@ func (f *simFS) Open(name string) (fs.File, error) {
 	case 5:
 		return nil, &fs.PathError{Op: "open", Path: name, Err: syscall.EIO}
 	}
-	return &simOpenFile{sf: sf, name: name}, nil
+	return &simOpenFile{sf: sf, fs: f, name: name}, nil
 }
 
 type simOpenFile struct {
 	sf   *simFile
+	fs   *simFS
 	name string
 	off  int
 }
@@ -87,8 +89,22 @@ type simOpenFile struct {
 func (o *simOpenFile) Stat() (fs.FileInfo, error) {
 	return simFileInfo{name: o.name, size: int64(len(o.sf.content)), mtime: o.sf.mtime}, nil
 }
-func (o *simOpenFile) Close() error { return nil }
+func (o *simOpenFile) Close() error {
+	o.slow("close")
+	return nil
+}
+
+// slow: a file system that takes its time (network mount, spinning disk): open, read and close calls of
+// concurrent logins interleave
+func (o *simOpenFile) slow(what string) {
+	r := o.fs.r
+	if o.fs.slowP > 0 && r.Float("fs-slow:"+what) < o.fs.slowP {
+		time.Sleep(time.Duration(1+r.Intn("fs-slow:"+what, 80)) * time.Millisecond)
+	}
+}
+
 func (o *simOpenFile) Read(b []byte) (int, error) {
+	o.slow("read")
 	c := o.sf.content
 	limit := len(c)
 	if o.sf.mode == 3 && o.sf.errAt < limit {
@@ -291,6 +307,9 @@ func scLogin(r *Run) {
 	enableGrants := r.Intn("cfg", 2) == 0
 	users := []string{"alice", "bob", "carol"}
 	ts, hs, sfs, srvCfg := startAppServer(r, n, users, enableGrants, 0)
+	if r.Intn("cfg", 3) == 0 {
+		sfs.slowP = 0.1 + 0.6*r.Float("cfg")
+	}
 	r.SetCfg("grants", enableGrants)
 	userKeys := map[string][]*keys.X25519KeyPair{}
 	var allKeys []*keys.X25519KeyPair
@@ -377,6 +396,9 @@ func scLogin(r *Run) {
 
 	// concurrent logins and grant additions
 	nAttempts := 2 + r.Intn("cfg", 5)
+	if sfs.slowP > 0 {
+		nAttempts += 4 // more logins in flight at the same time
+	}
 	var wg sync.WaitGroup
 	for i := 0; i < nAttempts; i++ {
 		i := i
@@ -411,6 +433,9 @@ func scLogin(r *Run) {
 			continue
 		}
 		delay := time.Duration(r.Intn(key, 300)) * time.Millisecond
+		if sfs.slowP > 0 {
+			delay /= 4
+		}
 		direct := r.Intn(key, 4) == 0
 		wg.Add(1)
 		r.Go(func() {
